@@ -82,6 +82,11 @@ func (s *Service) BeaconBlockHeader(ctx context.Context,
 
 				return
 			}
+			if response == nil || response.Data == nil {
+				log.Debug().Dur("elapsed", time.Since(started)).Msg("Obtained nil beacon block header")
+
+				return
+			}
 			log.Trace().Str("provider", name).Dur("elapsed", time.Since(started)).Msg("Obtained beacon block header")
 
 			ch <- &beaconBlockHeaderResp{
